@@ -528,3 +528,60 @@ pub fn run_batch_stripe(cycles: usize, slots: usize, stripe: usize, stripes: usi
     }
     res
 }
+
+/// C06 / C16: a slot recycled `cycles` times (next to a long-lived node), then a serde_json round trip:
+/// the copy equals the original, agrees on is_removed for every id ever issued, and goes on issuing
+/// the same — fresh — ids. Returns a description of the first disagreement.
+#[cfg(feature = "it-deser")]
+pub fn cycles_then_round_trip(cycles: usize) -> Option<String> {
+    let r = guarded(|| -> Option<String> {
+        let mut a: Arena<Payload> = Arena::new();
+        let keep = a.new_node(Payload(1));
+        let mut ids: Vec<NodeId> = Vec::with_capacity(cycles + 16);
+        for c in 0..cycles {
+            let id = keep.append_value(Payload(2), &mut a);
+            ids.push(id);
+            if c + 1 < cycles {
+                id.remove(&mut a);
+            }
+        }
+        let js = match serde_json::to_string(&a) {
+            Ok(j) => j,
+            Err(e) => return Some(format!("serialising failed: {e}")),
+        };
+        let mut b: Arena<Payload> = match serde_json::from_str(&js) {
+            Ok(b) => b,
+            Err(e) => return Some(format!("deserialising failed: {e}")),
+        };
+        if b != a || format!("{:?}", b) != format!("{:?}", a) {
+            return Some(format!("after {cycles} reuse cycles of one slot the round-tripped copy differs from the original (last id issued: {})", fmt_id(ids.last().copied())));
+        }
+        for (c, id) in ids.iter().enumerate() {
+            if id.is_removed(&a) != id.is_removed(&b) {
+                return Some(format!("the id {} issued in cycle {c} reports is_removed() = {} in the original and {} in the copy", fmt_id(Some(*id)), id.is_removed(&a), id.is_removed(&b)));
+            }
+        }
+        let seen: HashSet<NodeId> = ids.iter().copied().collect();
+        let last = *ids.last().unwrap();
+        last.remove(&mut a);
+        last.remove(&mut b);
+        for k in 0..10 {
+            let (x, y) = (keep.append_value(Payload(3), &mut a), keep.append_value(Payload(3), &mut b));
+            if x != y || seen.contains(&y) {
+                return Some(format!("allocation {} after the round trip: the original issues {}, the copy {} ({})", k + 1, fmt_id(Some(x)), fmt_id(Some(y)), if seen.contains(&y) { "an id issued before" } else { "fresh" }));
+            }
+            x.remove(&mut a);
+            y.remove(&mut b);
+        }
+        None
+    });
+    match r {
+        Ok(v) => v,
+        Err(m) => Some(format!("the history panicked: {m}")),
+    }
+}
+
+#[cfg(not(feature = "it-deser"))]
+pub fn cycles_then_round_trip(_: usize) -> Option<String> {
+    None
+}
